@@ -27,8 +27,15 @@ type c13Up struct {
 	Slug    string // per-upstream provider_slug ("" = deployment default)
 }
 
+// c13Pattern: the rewrite patterns as the configuration file states them (service -> pattern), compiled by the
+// reference itself: "matches" is what the documentation says, a regular-expression search of the Host.
+var c13Pattern = map[string]*regexp.Regexp{}
+
 func c13Menu() map[string]c13Up {
 	svc := func(name, from, to, typ, rule, slug string) string {
+		if typ == "rewrite" {
+			c13Pattern[name] = regexp.MustCompile(from)
+		}
 		s := "- service: " + name + "\n  default:\n    from: '" + from + "'\n    to: '" + to + "'\n"
 		if typ != "" {
 			s += "    type: " + typ + "\n"
@@ -170,7 +177,7 @@ func c13Run(c *fw.Ctx) {
 		}
 		if want == nil {
 			for _, uc := range ce.order {
-				if r, ok := uc.Route.(*proxy.RewriteRoute); ok && r.FromRegex.MatchString(host) {
+				if _, ok := uc.Route.(*proxy.RewriteRoute); ok && c13Pattern[uc.Service] != nil && c13Pattern[uc.Service].MatchString(host) {
 					want = uc
 					break
 				}
@@ -273,7 +280,7 @@ func c13Run(c *fw.Ctx) {
 		rewriteTargetExists := true
 		if rr, ok := want.Route.(*proxy.RewriteRoute); ok {
 			rewriteTargetExists = false
-			addr := rr.FromRegex.ReplaceAllString(host, rr.ToTemplate.Opaque)
+			addr := c13Pattern[want.Service].ReplaceAllString(host, rr.ToTemplate.Opaque)
 			for n, b := range e.Backends {
 				if b.Addr() == addr {
 					rewriteTargetExists = true
